@@ -61,6 +61,15 @@ def silence():
     L.traceback = _TB
 
 
+def conc(i, lo: int, hi: int) -> int:
+    """fork on the value of a bounded symbolic int so that everything computed from it
+    (slices of concrete strings in particular) is concrete on the path"""
+    for v in range(lo, hi + 1):
+        if i == v:
+            return v
+    raise AssertionError("conc: value outside stated bound")
+
+
 def part() -> int:
     return int(os.environ.get("VERIF_PART", "0"))
 
